@@ -39,9 +39,9 @@ theorem C25_transitions {a h : Bool} {s s' : St} {x : ConnState} (hr : Reach a h
     · cases upc <;> cases x <;> simp at hU <;> subst hU <;> close_doc
     · simp at hC; rcases hC with ⟨⟨⟨rfl, rfl⟩, rfl⟩, rfl⟩; cases last <;> simp [doc]
     · cases mpc with
-      | act b => cases b <;> cases x <;> simp at hM <;> (first | (rcases hM with ⟨rfl, rfl⟩) | subst hM) <;>
+      | act b => cases b <;> cases x <;> simp at hM <;> (first | (rcases hM with ⟨⟨rfl, _⟩, rfl⟩) | (rcases hM with ⟨rfl, rfl | rfl⟩) | (rcases hM with ⟨rfl, rfl⟩) | subst hM) <;>
                    cases last <;> close_doc
-      | _ => cases x <;> simp at hM <;> (first | (rcases hM with ⟨rfl, rfl⟩) | subst hM) <;> cases last <;> close_doc
+      | _ => cases x <;> simp at hM <;> (first | (rcases hM with ⟨⟨rfl, _⟩, rfl⟩) | (rcases hM with ⟨rfl, rfl | rfl⟩) | (rcases hM with ⟨rfl, rfl⟩) | subst hM) <;> cases last <;> close_doc
 
 /-- once `Close` has cancelled the monitor context (which it does before it
     reports `Closed`), the only state that can still be reported is `Closed` -/
@@ -79,20 +79,21 @@ theorem C25_monitor_exits {a h : Bool} {s s' : St} (hr : Reach a h s) (hc : s.ca
   simp only at hc; subst hc
   rcases hs with h | ⟨e, h⟩
   · simp only [tau, List.mem_append] at h
-    rcases h with ((hA | hB) | hC) | hD
+    rcases h with (((hA | hB) | hF) | hC) | hD
     · cases hooks <;> simp at hA
       cases mpc <;> simp [monHidden] at hA
       · rcases hA with rfl | rfl | rfl | rfl | rfl | rfl <;> simp [exitRank]
       · subst hA; simp [exitRank]
     · simp at hB
-    · cases upc <;> simp at hC <;> (first | (rcases hC with rfl | rfl) | subst hC) <;> simp
+    · simp at hF; rcases hF with ⟨_, rfl⟩; simp
+    · cases upc <;> simp at hC <;> (first | (rcases hC with rfl | rfl | rfl) | (rcases hC with rfl | rfl) | subst hC) <;> simp
     · cases mpc with
-      | act b => cases b <;> simp at hD <;> subst hD <;> simp [exitRank]
+      | act b => cases b <;> simp at hD <;> (first | (rcases hD with rfl | rfl) | subst hD) <;> simp [exitRank]
       | err c => cases auto <;> simp at hD <;> subst hD <;> cases c <;> simp [exitRank, classify]
       | restore1 => cases sess <;> simp at hD <;> (first | (rcases hD with rfl | rfl | rfl) | subst hD) <;> simp [exitRank]
       | recreate1 => simp at hD; rcases hD with rfl | rfl | rfl <;> simp [exitRank]
-      | dialed => simp at hD; rcases hD with rfl | rfl <;> simp [exitRank]
-      | wait => simp at hD; rcases hD with rfl | rfl <;> simp [exitRank]
+      | dialed => simp at hD; rcases hD with rfl | rfl | rfl <;> simp [exitRank]
+      | wait => simp at hD; rcases hD with rfl | ⟨_, rfl⟩ <;> simp [exitRank]
       | _ => simp at hD <;> (try subst hD) <;> simp [exitRank]
   · simp only [obs, List.mem_append] at h
     rcases h with hA | hB
@@ -210,6 +211,70 @@ theorem C25_state_after_close_rejected :
     accepts true true [.uConnect, .st .connecting, .dial, .st .connected, .uConnectOk,
       .st .disconnected, .mError .badSubscription, .mAction .transferSubscriptions, .mAction .restoreSubscriptions,
       .uClose, .st .closed, .uCloseEnd, .mDone, .st .closed] = true := by
+  decide +kernel
+
+/-- the monitor never waits with a stale error of a dead channel in front of it:
+    `Dial` drains `c.sechanErr` before it creates a channel and the end of a
+    reconnect round drains it too -/
+theorem C25_no_stale_error_while_waiting {a h : Bool} {s : St} (hr : Reach a h s) (hw : s.mpc = .wait) :
+    s.stale = false := by
+  have hi := C25_invariant hr
+  rcases s with ⟨upc, mpc, cl, ca, sess, last, auto, hooks, fa, stl⟩
+  simp only at hw; subst hw
+  cases stl <;> simp [Good] at hi ⊢
+
+/-- `Disconnected` is reported only when the live connection really reported an
+    error: never because of what an earlier, failed `Connect` or an earlier
+    channel left behind (the repaired defect C25.stale-error-after-failed-connect) -/
+theorem C25_disconnected_needs_fault {a h : Bool} {s s' : St} (hr : Reach a h s)
+    (hs : s' ∈ obs s (.st .disconnected)) : s.faulted = true := by
+  have hst := fun hw => C25_no_stale_error_while_waiting hr hw
+  rcases s with ⟨upc, mpc, cl, ca, sess, last, auto, hooks, fa, stl⟩
+  simp only [obs, List.mem_append] at hs
+  rcases hs with hA | (hU | hC) | hM
+  · cases hooks <;> cases mpc <;> simp_all
+  · cases upc <;> simp at hU
+  · simp at hC
+  · cases mpc with
+    | wait =>
+      simp at hM
+      have := hst rfl
+      simp only at this; subst this
+      cases fa <;> simp_all
+    | act b => cases b <;> simp at hM
+    | _ => simp at hM
+
+/-- FINDING C25.error-lost-in-reconnect-drain: the drain at the end of a
+    reconnect round (`for len(c.sechanErr) > 0 { <-c.sechanErr }`, after
+    `Connected` was reported) also discards an error the NEW connection has
+    already reported: the monitor then waits with a dead connection and nothing
+    will ever report it (the dispatcher has exited) — the step exists in the model -/
+theorem C25_finding_error_lost_in_drain :
+    ∃ s s', s.mpc = .done ∧ s.last = .connected ∧ s.faulted = true ∧ s' ∈ obs s .mDone ∧
+      s'.mpc = .wait ∧ s'.faulted = false ∧ s'.last = .connected :=
+  ⟨⟨.running, .done, .no, false, true, .connected, true, true, true, false⟩,
+   ⟨.running, .wait, .no, false, true, .connected, true, true, false, false⟩,
+   rfl, rfl, rfl, by simp [obs], rfl, rfl, rfl⟩
+
+/-- REPEATED CONNECT: after a `Connect` that returned an error the client has
+    reported nothing but `Connecting` / `Closed` last; if the error came from
+    the namespace update after `Connected` was reported, Connect's own Close has
+    cancelled the monitor and `Closed` is the last report -/
+theorem C25_failed_connect_not_connected {a h : Bool} {s : St} (hr : Reach a h s) (hf : s.upc = .failed) :
+    (s.last = .closed ∨ s.last = .connecting) ∧ (s.cl = .ended → s.last = .closed ∧ s.cancelled = true) := by
+  have hi := C25_invariant hr
+  rcases s with ⟨upc, mpc, cl, ca, sess, last, auto, hooks, fa, stl⟩
+  simp only at hf; subst hf
+  close_inv
+
+/-- a failed `Connect` can be retried on the same client, and a `Connect` whose
+    namespace update fails after `Connected` ends `Closed` with an error: both
+    are paths of the model -/
+theorem C25_connect_retry_and_nsfail_paths :
+    accepts true true [.uConnect, .st .connecting, .dial, .uConnectErr,
+      .uConnect, .st .connecting, .dial, .st .connected, .uConnectOk] = true ∧
+    accepts true true [.uConnect, .st .connecting, .dial, .st .connected, .st .closed, .uConnectErr, .st .closed] = true ∧
+    accepts true true [.uConnect, .st .connecting, .dial, .st .connected, .st .closed, .uConnectErr, .uConnect] = false := by
   decide +kernel
 
 /-- non-vacuity: the traces of a cut connection, of an outage with dial
